@@ -129,4 +129,20 @@ theorem C02_cex_container_default : cexOk withDefault (.obj []) .containerDefaul
 /-- a struct without a flattened map also deserializes from a JSON ARRAY (positional `visit_seq`) -/
 theorem C02_cex_struct_from_seq : cexOk (o1 "q" .str true) (.arr [st "x"]) .structFromSeq = true := by decide
 
+/-- finding F02-9: `{type: string, format: int64}` (and the other integer / float formats) is typed as a Rust NUMBER. EVERY
+string — each of them valid against the schema — is refused, for every naming function and every format: the property fails
+on the whole of the schema's own value space -/
+theorem C02_string_numeric_format_refuses_all (fname : Str → Str) (vname : J → Str) (f : IntFmt) (t : Str) :
+    judge (.strNum f) (typeOf fname vname (.strNum f)) (.str t) = false := by
+  simp [judge, judgeRun, valid, rt, typeOf]
+
+theorem C02_string_float_format_refuses_all (fname : Str → Str) (vname : J → Str) (b : Bool) (t : Str) :
+    judge (.strFloat b) (typeOf fname vname (.strFloat b)) (.str t) = false := by
+  simp [judge, judgeRun, valid, rt, typeOf]
+
+/-- … while a JSON number, which is NOT valid against `type: string`, is read -/
+theorem C02_cex_string_int64_reads_number :
+    (rt (typeOf id (fun _ => []) (.strNum .i64)) (.num 5 0)).isSome = true ∧ valid true (.strNum .i64) (.num 5 0) = false := by
+  simp [rt, typeOf, valid, IntFmt.range]
+
 end Oas3.Codec.C02
